@@ -29,3 +29,5 @@ func (s *SessionManager) VerifKickWithHook(clientID int64, newConnID string, hoo
 		s.sendKickCommand(c, reason, code)
 	})
 }
+
+func (s *SessionManager) VerifControlListLen() int { return len(s.clientRegistry.List()) }
